@@ -51,24 +51,36 @@ build() {
 # Where the harness looks for the repository (the path dependency in sim/Cargo.toml).
 repo_path() { sed -n 's/^ckc-rs *= *{ *path *= *"\([^"]*\)".*/\1/p' "$SIM/Cargo.toml" | head -n1; }
 
-# Does the non-test source use atomics? (Only then is there anything for a thread scheduler to interleave.)
+# Does the source mention atomics at all? (Only then is there anything for a thread scheduler to
+# interleave. Test modules and comments are included on purpose: a phase run in vain is harmless.)
 has_atomics() {
   local r; r="$(repo_path)"
-  awk 'FNR==1{t=0} /#\[cfg\(test\)\]/{t=1} !t{print}' "$r"/src/*.rs "$r"/src/*/*.rs 2>/dev/null | grep -q 'sync::atomic'
+  grep -rqE 'sync::atomic|sync::\{[^}]*atomic|Atomic(U|I)[0-9a-z]+|AtomicBool|AtomicPtr' "$r/src" 2>/dev/null
 }
 
 # Shadow build for the concurrent phase (DESIGN 10.13): a copy of the repository in which
 # core::sync::atomic is shuttle::sync::atomic, and the simulator built against it with --features conc.
-CONC="$SIM/target/conc"
-CONCBIN="$CONC/sim/target/release/ckc-sim"
+CONC_SKIP_REASON=""
+conc_paths() { CONC="$SIM/target/conc-$1"; CONCBIN="$CONC/sim/target/release/ckc-sim"; }
 conc_build() {
   local r; r="$(repo_path)"
-  mkdir -p "$CONC/ckc-rs" "$CONC/sim/.cargo" || return 1
-  rsync -a --delete --exclude target --exclude .git "$r"/ "$CONC/ckc-rs/" || return 1
+  CONC_SKIP_REASON=""
+  mkdir -p "$CONC/ckc-rs" "$CONC/sim/.cargo" || { CONC_SKIP_REASON="cannot create $CONC"; return 1; }
+  rsync -a --delete --exclude target --exclude .git "$r"/ "$CONC/ckc-rs/" || { CONC_SKIP_REASON="rsync failed"; return 1; }
   find "$CONC/ckc-rs" -type f -exec touch {} +   # rsync keeps time stamps; cargo must see the copy as new
-  find "$CONC/ckc-rs/src" -name '*.rs' -print0 | xargs -0 sed -i 's/core::sync::atomic/shuttle::sync::atomic/g; s/core::hint::spin_loop/shuttle::hint::spin_loop/g'
-  grep -q '^shuttle' "$CONC/ckc-rs/Cargo.toml" || sed -i 's/^\[dependencies\]$/[dependencies]\nshuttle = "0.9.3"/' "$CONC/ckc-rs/Cargo.toml"
-  rsync -a --delete "$SIM/src/" "$CONC/sim/src/" || return 1
+  # core::sync holds nothing but `atomic`, so the whole path prefix can be redirected; this also covers
+  # `use core::sync::{atomic::…}` and `use core::sync as s;`
+  find "$CONC/ckc-rs/src" -name '*.rs' -print0 | xargs -0 sed -i -E 's/\bcore::sync\b/shuttle::sync/g; s/\bstd::sync::atomic\b/shuttle::sync::atomic/g; s/\b(core|std)::hint::spin_loop\b/shuttle::hint::spin_loop/g'
+  # anything the rewrite cannot put behind the scheduler makes the phase meaningless or unsound: skip it, and say so
+  if grep -rnE 'cast::<Atomic|as \*(const|mut) Atomic|transmute[^;]*Atomic|Atomic[A-Za-z0-9]+::from_ptr|\.as_ptr\(\)' "$CONC/ckc-rs/src" >/dev/null 2>&1; then
+    CONC_SKIP_REASON="the source reaches atomics through raw pointers or casts, which the shuttle rewrite cannot model"; return 1
+  fi
+  if grep -rnE '(^|[^a-z_:])(sync::atomic|atomic::Atomic)' "$CONC/ckc-rs/src" | grep -vE 'shuttle::sync' >/dev/null 2>&1; then
+    CONC_SKIP_REASON="some use of atomics is written in a path form the rewrite to shuttle::sync::atomic does not cover"; return 1
+  fi
+  # dependency added to a fresh copy of the manifest every time (the copy above restored the original)
+  sed -i 's/^\[dependencies\]$/[dependencies]\nshuttle = "0.9.3"/' "$CONC/ckc-rs/Cargo.toml"
+  rsync -a --delete "$SIM/src/" "$CONC/sim/src/" || { CONC_SKIP_REASON="rsync failed"; return 1; }
   cat > "$CONC/sim/Cargo.toml" <<'TOML'
 [package]
 name = "ckc-sim"
@@ -86,8 +98,13 @@ panic = "unwind"
 debug = false
 TOML
   printf '[net]\noffline = true\n' > "$CONC/sim/.cargo/config.toml"
-  cp "$SIM/conc.Cargo.lock" "$CONC/sim/Cargo.lock" || return 1
-  (cd "$CONC/sim" && cargo build --offline --quiet --release --features conc) >"$SIM/target/conc-build.log" 2>&1
+  cp "$SIM/conc.Cargo.lock" "$CONC/sim/Cargo.lock" || { CONC_SKIP_REASON="lock file missing"; return 1; }
+  if ! (cd "$CONC/sim" && cargo build --offline --quiet --release --features conc) >"$SIM/target/conc-build-$$.log" 2>&1; then
+    CONC_SKIP_REASON="the shadow build with shuttle atomics failed (an atomic API shuttle does not provide?): $(grep -m1 -E '^error' "$SIM/target/conc-build-$$.log" | cut -c1-160)"
+    return 1
+  fi
+  rm -f "$SIM/target/conc-build-$$.log"
+  return 0
 }
 
 case "${1:-}" in
@@ -101,31 +118,37 @@ case "${1:-}" in
   replay)
     [ $# -ge 2 ] || { echo "usage: check.sh replay <file>" >&2; exit 2; }
     build || exit 2
+    command -v jq >/dev/null 2>&1 || { grep -q '"mode": "shuttle-' "$2" && { echo "HARNESS-ERROR: jq is needed to replay a concurrent-phase file" >&2; exit 2; }; }
     mode="$(jq -r '.mode // "history"' "$2" 2>/dev/null)"
     if [ "$mode" = "shuttle-schedule" ] || [ "$mode" = "shuttle-lane" ]; then
       # a concurrent-phase replay: needs the shadow build of the current tree
       prop="$(jq -r '.property_id' "$2")"
+      mkdir -p "$SIM/target/run"
       if ! has_atomics; then echo "REPLAY-RESULT no-violation (the current tree has no atomics: nothing to schedule)"; exit 0; fi
-      conc_build || { echo "HARNESS-ERROR: shadow build failed (log: $SIM/target/conc-build.log)" >&2; exit 2; }
+      conc_paths "$prop"
+      exec 9>"$SIM/target/conc-$prop.lock"; flock 9 2>/dev/null || true
+      conc_build || { echo "REPLAY-RESULT no-violation (the concurrent phase cannot be built for the current tree: $CONC_SKIP_REASON)"; exit 0; }
+      want="$(jq -r '.expected.class' "$2")"
+      out="$SIM/target/run/replay-out-$$.txt"
       if [ "$mode" = "shuttle-schedule" ]; then
-        $NOASLR "$CONCBIN" conc-replay --prop "$prop" --schedule "$(jq -r '.schedule_file' "$2")" | tee "$SIM/target/run/replay-out.txt"; rc=${PIPESTATUS[0]}
-        grep -q "REPLAY-RESULT class=$(jq -r '.expected.class' "$2") " "$SIM/target/run/replay-out.txt" && echo "reproduces the recorded violation exactly (class; the schedule is shuttle's): yes"
+        sched="$(jq -r '.schedule_file' "$2")"
+        [ -f "$sched" ] || sched="$(dirname "$2")/$(basename "$sched")"
+        [ -f "$sched" ] || { echo "HARNESS-ERROR: schedule file $(jq -r '.schedule_file' "$2") not found" >&2; exit 2; }
+        $NOASLR "$CONCBIN" conc-replay --prop "$prop" --schedule "$sched" 2>/dev/null | tee "$out"
       else
-        tmp="$SIM/target/run/replay-lane.json"; mkdir -p "$SIM/target/run"
-        $NOASLR "$CONCBIN" conc-lane --prop "$prop" --seed "$(jq -r '.verif_seed' "$2")" --lane "$(jq -r '.lane' "$2")" --iterations "$(jq -r '.iterations' "$2")" --dir "$SIM/target/run/replay-sched" --out "$tmp" >/dev/null 2>&1
-        if [ "$(jq -r '.failed' "$tmp")" = true ]; then
-          echo "REPLAY-RESULT class=$(jq -r '.violation.class' "$tmp") step=$(jq -r '.violation.step' "$tmp") digest=0x0"; jq '.violation' "$tmp"; rc=1
-          [ "$(jq -r '.violation.class' "$tmp")" = "$(jq -r '.expected.class' "$2")" ] && echo "reproduces the recorded violation exactly (class; the whole lane was re-run from its seed): yes"
-        else echo "REPLAY-RESULT no-violation"; rc=0; fi
+        tmp="$SIM/target/run/replay-lane-$$.json"
+        $NOASLR "$CONCBIN" conc-lane --prop "$prop" --seed "$(jq -r '.verif_seed_str // (.verif_seed|tostring)' "$2")" --lane "$(jq -r '.lane' "$2")" --iterations "$(jq -r '.iterations' "$2")" --max-secs 100000 --dir "$SIM/target/run/replay-sched-$$" --out "$tmp" >/dev/null 2>&1
+        if [ "$(jq -r '.failed' "$tmp" 2>/dev/null)" = true ] && [ "$(jq -r '.violation.class // empty' "$tmp")" != "" ]; then
+          echo "REPLAY-RESULT class=$(jq -r '.violation.class' "$tmp") step=$(jq -r '.violation.step' "$tmp") digest=0x0" | tee "$out"; jq '.violation' "$tmp"
+        else echo "REPLAY-RESULT no-violation" | tee "$out"; fi
+        rm -rf "$tmp" "$SIM/target/run/replay-sched-$$"
       fi
-      if [ $rc -eq 1 ]; then
-        want="$(jq -r '.expected.class' "$2")"
-        echo "VIOLATION property=$prop replay=$2" > "$SIM/target/run/replay-vline.txt"
-        # the lines above carry the class that failed this time
-        echo "expected class: $want"
-        cat "$SIM/target/run/replay-vline.txt"
+      # the verdict is what the result line says, nothing else
+      if grep -q "^REPLAY-RESULT class=" "$out"; then
+        grep -q "^REPLAY-RESULT class=$want " "$out" && echo "reproduces the recorded violation exactly (class; schedule or lane re-run from its seed): yes"
+        echo "VIOLATION property=$prop replay=$2"; rm -f "$out"; exit 1
       fi
-      exit $rc
+      rm -f "$out"; exit 0
     fi
     $NOASLR "$FAST" replay "$2"
     rc=$?
@@ -145,14 +168,18 @@ case "${1:-}" in
     concargs=()
     if has_atomics; then
       # the tree has process-wide atomics: put them behind shuttle's scheduler and explore callers' interleavings
+      conc_paths "$prop"
       rep="$SIM/target/run/$prop-$tier-conc-$$.json"; mkdir -p "$SIM/target/run"; rm -f "$rep"
+      exec 9>"$SIM/target/conc-$prop.lock"; flock 9 2>/dev/null || true   # one shadow per property at a time
       if conc_build; then
         iters=15000; secs=60; [ "$tier" = thorough ] && { iters=300000; secs=900; }
-        "$CONCBIN" conc --prop "$prop" --root "$ROOT" --iterations "$iters" --max-secs "$secs" --out "$rep" >/dev/null 2>"$SIM/target/conc-run.log"
-        [ -f "$rep" ] && concargs=(--conc-report "$rep")
+        "$CONCBIN" conc --prop "$prop" --root "$ROOT" --iterations "$iters" --max-secs "$secs" --out "$rep" >/dev/null 2>"$SIM/target/conc-run-$$.log"
+        if [ -f "$rep" ]; then concargs=(--conc-report "$rep"); else concargs=(--conc-skipped "the concurrent run ended without a report"); echo "NOTE: concurrent phase: the run ended without a report (log: $SIM/target/conc-run-$$.log)"; fi
       else
-        echo "NOTE: concurrent phase skipped: the shadow build with shuttle atomics failed (log: $SIM/target/conc-build.log)"
+        echo "NOTE: concurrent phase skipped: $CONC_SKIP_REASON"
+        concargs=(--conc-skipped "$CONC_SKIP_REASON")
       fi
+      flock -u 9 2>/dev/null || true
     fi
     "$FAST" check --prop "$prop" --tier "$tier" --root "$ROOT" --other-bin "$CHK" "${concargs[@]}"
     rc=$?
